@@ -216,6 +216,9 @@ def _trace(col, ver, src):
             raise
         col.count("trace_from_bytecode_raised")
         return
+    if any(type(b).__name__ != "PythonBytecodeBlock" for b in bf.scfg.graph.values()):
+        col.count("trace_not_a_bytecode_graph")  # the static leg reports it (B-type)
+        return
     blocks = sorted(bf.scfg.graph.values(), key=lambda b: b.begin)
     offs = [i.offset for i in bm.instructions(code)]
     nxt = dict(zip(offs, offs[1:]))
